@@ -28,7 +28,7 @@ COLLISIONS = [[-1, -2], [0, 2305843009213693951], [1, 2305843009213693952], [-2,
 def jobs(tier, seed):
     js = []
     for j in c12.jobs(tier, seed):
-        if j.get("twin") or j.get("c"):
+        if j.get("mode") != "pair" or j.get("twin") or j.get("c"):
             continue
         js.append({"mode": "reprpair", "a": j["a"], "b": j["b"], "int_inputs": j.get("int_inputs", []), "tag": j.get("tag")})
     X = fam.X
